@@ -761,7 +761,8 @@ class _Gen:
         mine = {d["name"] for d in f["typedefs"]}
         for inc in f["includes"]:
             for d in self.program["files"][inc]["typedefs"]:
-                if d["name"] in mine and head_kind(self.program, ["ref", inc, d["name"]]) != "struct":
+                if d["name"] in mine and head_kind(self.program, ["ref", inc, d["name"]]) != "struct" \
+                        and not _leaves_file(self.program, inc, d["type"]):
                     for t in (["ref", inc, d["name"]], ["list", ["ref", inc, d["name"]]], ["ref", fn, d["name"]]):
                         if t[0] == "ref" and t[1] == fn and head_kind(self.program, t) == "struct":
                             continue
@@ -880,6 +881,17 @@ class _Gen:
                 self.gen_service(fn)
         if self.feat["scopes"] and rng.random() < 0.7:
             self.gen_scope(fn)
+
+
+def _leaves_file(program, home, t):
+    """does type t, written in file home, mention (directly or through typedefs) a declaration of another file?  (a typedef
+    of an include that stands for a type of the include's OWN include cannot be named by the includer: known finding C11-K2)"""
+    if t[0] == "ref":
+        if t[1] != home:
+            return True
+        k, d = lookup(program, t[1], t[2])
+        return k == "typedef" and _leaves_file(program, home, d["type"])
+    return any(_leaves_file(program, home, x) for x in t[1:] if isinstance(x, list))
 
 
 def _foreign_via_typedef(program, fn, t, via=False):
